@@ -216,6 +216,11 @@ def gen_history(rng, opts):
     for cname in ['OpA'] + (['OpB'] if rng.random() < 0.4 else []):
         classes[cname] = {'params': gen_params(rng, opts), 'classLevel': rng.random() < 0.2,
                           'hasExtractor': bool(opts.get('extractors')) and rng.random() < 0.5}
+    if 'OpB' in classes and rng.random() < 0.4:
+        # OpB inherits the decorated operation of OpA (one decorated function shared by two classes)
+        classes['OpB']['base'] = 'OpA'
+        classes['OpB']['classLevel'] = classes['OpA']['classLevel']
+        classes['OpB']['hasExtractor'] = classes['OpA']['hasExtractor']
     runs = []
     created = 0
     scripts = []
